@@ -242,6 +242,34 @@ def r18_4(ctx, rr):
                 ok = True
             else:
                 why = "read loop found but %s" % ("the remaining count does not start at buf_sizes[next_bucket]" if not init_ok else "each round must read min(buffer, remaining) pairs into a buffer of that length and subtract that amount")
+    # the same loop written over the offsets: `for start in (0..len).step_by(B) { n = B.min(len - start); set_len(n); read_exact }`
+    for pat, it, body in for_loops(b.body):
+        if ok or pat.get("k") != "PBind" or not (it.get("k") == "MethodCall" and it["name"] == "step_by" and range_of(F, it["recv"]) is not None):
+            continue
+        if not any(x.get("k") == "MethodCall" and x["name"] == "read_exact" for x in walk(body)):
+            continue
+        lo, hi, incl = range_of(F, it["recv"])
+        total = None
+        if hi is not None and hi.get("k") == "Path" and hi.get("res") == "local":
+            for l in walk(b.body):
+                if l.get("k") == "LetStmt" and l["pat"].get("k") == "PBind" and l["pat"]["id"] == hi["id"] and not l["pat"].get("mut") and "init" in l:
+                    total = T.term(l["init"])
+        elif hi is not None:
+            total = T.term(hi)
+        init_ok = lo is not None and T.term(lo) == ("int", 0) and not incl and total is not None and total[0] == "index" and total[1][0] == "field" and total[1][2] == "buf_sizes" and total[2][0] == "field" and total[2][2] == "next_bucket"
+        step = T.term(it["args"][0])
+        start = ("var", pat["name"], pat["id"])
+        amount = None
+        for l in walk(body):
+            if l.get("k") == "LetStmt" and l["pat"].get("k") == "PBind" and "init" in l:
+                at = T.term(l["init"])
+                if at[0] == "op" and at[1] == "min" and step in (at[2], at[3]) and mk_op("-", T.term(hi), start) in (at[2], at[3]):
+                    amount = l["pat"]["id"]
+        setlens = [x for x in walk(body) if x.get("k") == "MethodCall" and x["name"] == "set_len" and x["args"] and x["args"][0].get("k") == "Path" and x["args"][0].get("id") == amount]
+        if init_ok and amount is not None and setlens:
+            ok = True
+        else:
+            why = "read loop over the offsets found but %s" % ("it does not cover 0..buf_sizes[next_bucket]" if not init_ok else "each round must read min(step, len - start) pairs into a buffer of that length")
     rr.instances += 1
     rr.check(ok, "ShardIterator::next[file]:split-read-loop", "the file-backed split must read the whole bucket: %s" % why, b.span)
 
